@@ -1,5 +1,5 @@
 """Sidecar contracts for gwf. Each module has install(eng)."""
-MODULES = ["vocab", "c_core", "c_scheduling"]
+MODULES = ["vocab", "c_core", "c_scheduling", "c_graph"]
 
 
 def install_all(eng, modules=None):
